@@ -30,3 +30,20 @@ Definition mcp_cfg (analyses : list string) (minc : Z) (sev : string) (sim : Q) 
 (* the MCP spelling of each CLI analysis name *)
 Definition to_mcp (n : string) : string :=
   (if String.eqb n "deadcode" then "dead_code" else if String.eqb n "clones" then "clone" else n)%string.
+
+(* the single-analysis tools (HandleCheckComplexity, HandleDetectClones, HandleCheckCoupling, HandleCheckCohesion,
+   HandleFindDeadCode) hand the use case a directory and the patterns to walk it with; `pyscn analyze` walks with the
+   patterns of the [analysis] section (app/analyze_usecase.go getFilePatterns).  A tool selects the same files when the
+   only configuration fields it reads patterns from are those two (Gen/McpConst.v mcp_tool_pattern_sources) *)
+Definition analysis_pattern_fields : list string :=
+  ["cfg.Analysis.ExcludePatterns"; "cfg.Analysis.IncludePatterns"]%string.
+
+Definition reads_analysis_patterns_only (srcs : list string) : bool :=
+  forallb (fun s => existsb (String.eqb s) analysis_pattern_fields) srcs &&
+  forallb (fun a => existsb (String.eqb a) srcs) analysis_pattern_fields.
+
+Definition single_tools : list string :=
+  ["check_complexity"; "detect_clones"; "check_coupling"; "check_cohesion"; "find_dead_code"]%string.
+
+Definition tools_select_files_like_cli : bool :=
+  forallb (fun t => existsb (fun r => String.eqb (fst r) t && reads_analysis_patterns_only (snd r)) mcp_tool_pattern_sources) single_tools.
